@@ -178,6 +178,22 @@ func lastOutputScript(name string, tx *bt.Tx, err error, sats uint64) ([]byte, e
 }
 
 func checkDerive(ctx *pbt.Ctx, c Derive) error {
+	// every byte slice handed to the library is the caller's own, with a canary in its spare
+	// capacity: a constructor that appends to it writes into the caller's memory
+	var handed [][]byte
+	own := func(b []byte) []byte {
+		o := ref.Canary(b)
+		handed = append(handed, o)
+		return o
+	}
+	ctx.After(func() error {
+		for _, o := range handed {
+			if ref.CanaryDamaged(o) {
+				return fmt.Errorf("a constructor wrote behind the %d-byte slice %x it was handed (the caller's memory): %x", len(o), o, o[len(o):cap(o)])
+			}
+		}
+		return nil
+	})
 	var h, key []byte
 	var pub *bec.PublicKey
 	switch c.Kind {
@@ -220,7 +236,7 @@ func checkDerive(ctx *pbt.Ctx, c Derive) error {
 		err  error
 	}
 	var ders []der
-	a1, e1 := bscript.NewAddressFromPublicKeyHash(append([]byte{}, h...), c.Mainnet)
+	a1, e1 := bscript.NewAddressFromPublicKeyHash(own(h), c.Mainnet)
 	ders = append(ders, der{"NewAddressFromPublicKeyHash", a1, e1})
 	if key != nil {
 		a2, e2 := bscript.NewAddressFromPublicKeyString(hex.EncodeToString(key), c.Mainnet)
@@ -244,7 +260,7 @@ func checkDerive(ctx *pbt.Ctx, c Derive) error {
 			err  error
 		}
 		var others []od
-		o1, oe1 := bscript.NewAddressFromPublicKeyHash(append([]byte{}, h...), !c.Mainnet)
+		o1, oe1 := bscript.NewAddressFromPublicKeyHash(own(h), !c.Mainnet)
 		others = append(others, od{"NewAddressFromPublicKeyHash", o1, oe1})
 		if key != nil {
 			o2, oe2 := bscript.NewAddressFromPublicKeyString(hex.EncodeToString(key), !c.Mainnet)
@@ -298,7 +314,7 @@ func checkDerive(ctx *pbt.Ctx, c Derive) error {
 	var bs []built
 	add := func(name string, b []byte, err error) { bs = append(bs, built{name, b, err}) }
 	{
-		s, err := bscript.NewP2PKHFromPubKeyHash(append([]byte{}, h...))
+		s, err := bscript.NewP2PKHFromPubKeyHash(own(h))
 		b, err := scriptOf("NewP2PKHFromPubKeyHash", s, err)
 		add("NewP2PKHFromPubKeyHash", b, err)
 	}
@@ -325,7 +341,7 @@ func checkDerive(ctx *pbt.Ctx, c Derive) error {
 		add("AddP2PKHOutputFromAddress", b, err)
 	}
 	if key != nil {
-		s, err := bscript.NewP2PKHFromPubKeyBytes(append([]byte{}, key...))
+		s, err := bscript.NewP2PKHFromPubKeyBytes(own(key))
 		b, err := scriptOf("NewP2PKHFromPubKeyBytes", s, err)
 		add("NewP2PKHFromPubKeyBytes", b, err)
 
@@ -334,7 +350,7 @@ func checkDerive(ctx *pbt.Ctx, c Derive) error {
 		add("NewP2PKHFromPubKeyStr", b, err)
 
 		tx := bt.NewTx()
-		err = tx.AddP2PKHOutputFromPubKeyBytes(append([]byte{}, key...), 548)
+		err = tx.AddP2PKHOutputFromPubKeyBytes(own(key), 548)
 		b, err = lastOutputScript("AddP2PKHOutputFromPubKeyBytes", tx, err, 548)
 		add("AddP2PKHOutputFromPubKeyBytes", b, err)
 
